@@ -4,9 +4,12 @@
 Require Extraction.
 Require Import ExtrOcamlBasic.
 From MOC.Base Require Import RangeSet.
-From MOC.Model Require Import Qty Ops1D.
+From MOC.Model Require Import Qty Ops1D Query Expr.
 Extraction Language OCaml.
 Extraction "moc_model.ml"
   RangeSet.covb RangeSet.canonb RangeSet.canon_of
   Qty.valid_mocb Qty.max_depth Qty.n_cells_max Qty.n_cells Qty.shift
-  Ops1D.moc_op2 Ops1D.moc_not Ops1D.moc_degrade.
+  Ops1D.moc_op2 Ops1D.moc_not Ops1D.moc_degrade
+  Query.contains_val Query.contains_range Query.intersects_range Query.intersects Query.contains
+  Query.overlapped_by Query.msum Query.width
+  Expr.eval Expr.edepth Expr.leaves_validb.
